@@ -351,6 +351,10 @@ fn leading_match(branch: &ast::Branch) -> Option<&ast::Match> {
     }
 }
 
+/// In `Compiler::case_tables`: the callable type is shared by functions whose case tables differ,
+/// or by one that has none, so no table may be applied through it (no function has this index).
+const AMBIGUOUS_CASE_TABLE: usize = usize::MAX;
+
 pub struct Compiler<'a, E: quiver_core::effects::Effect> {
     // Core components
     codegen: InstructionBuilder,
@@ -399,6 +403,8 @@ pub struct Compiler<'a, E: quiver_core::effects::Effect> {
     // statically known at the call site (the common case: a local dispatch function). A type
     // shared by dispatch functions with *differing* tables is ambiguous and absent here; calls
     // through it then rely on the statically-known callee (imports/direct calls carry it).
+    // The same holds for a type shared with a function that has no table at all: such a type
+    // stays here, mapped to `AMBIGUOUS_CASE_TABLE`, so that no later function can claim it.
     // Both survive across module compilation (same Compiler instance).
     case_tables: HashMap<usize, usize>,
 
@@ -1685,22 +1691,15 @@ impl<'a, E: quiver_core::effects::Effect> Compiler<'a, E> {
         // still specialize — unless another dispatch function already claimed the type with a
         // *different* table, which makes the type ambiguous (dropped from `case_tables`). Two
         // functions with an identical table (e.g. `num.add`/`num.sub`) keep the type unambiguous.
-        if let Some(branches) = dispatch_table {
-            let canonical = match self.case_tables.get(&callable_type_id).copied() {
-                None => Some(function_index),
-                Some(existing_fn) => (self.fn_case_tables.get(&existing_fn) == Some(&branches))
-                    .then_some(existing_fn),
-            };
-            match canonical {
-                Some(fi) => {
-                    self.case_tables.insert(callable_type_id, fi);
-                }
-                None => {
-                    self.case_tables.remove(&callable_type_id);
-                }
-            }
-            self.fn_case_tables.insert(function_index, branches);
+        //
+        // The table found through the type is applied to ANY callee of that type, so it has to be
+        // the table of every function of the type: a function that has no table (its body is no
+        // pure parameter dispatch) makes the type ambiguous as well, and an ambiguous type stays
+        // ambiguous.
+        if let Some(branches) = &dispatch_table {
+            self.fn_case_tables.insert(function_index, branches.clone());
         }
+        self.claim_case_table(callable_type_id, dispatch_table.map(|_| function_index));
 
         self.codegen.instructions = saved_instructions;
         self.scopes = saved_scopes;
@@ -2745,7 +2744,8 @@ impl<'a, E: quiver_core::effects::Effect> Compiler<'a, E> {
                 self.fn_case_tables.entry(*k).or_insert_with(|| v.clone());
             }
             for (k, v) in &cached.case_tables {
-                self.case_tables.entry(*k).or_insert(*v);
+                let claimant = (*v != AMBIGUOUS_CASE_TABLE).then_some(*v);
+                self.claim_case_table(*k, claimant);
             }
             cached
         } else {
@@ -4314,6 +4314,25 @@ impl<'a, E: quiver_core::effects::Effect> Compiler<'a, E> {
         }
         let new_tuple_id = self.program.register_tuple(info.name, fields);
         self.program.register_type(Type::Tuple(new_tuple_id))
+    }
+
+    /// Record, for calls whose callee is not statically known, which function's case table
+    /// stands for a callable type: `claimant` is a function of that type - `Some(index)` when it
+    /// has a case table, `None` when it has none. The type keeps a table only while every
+    /// function seen with it has that same table; otherwise it is marked ambiguous, for good.
+    fn claim_case_table(&mut self, callable_type_id: usize, claimant: Option<usize>) {
+        let claimed = match (self.case_tables.get(&callable_type_id).copied(), claimant) {
+            (None, Some(function_index)) => function_index,
+            (Some(existing), Some(function_index))
+                if existing != AMBIGUOUS_CASE_TABLE
+                    && self.fn_case_tables.get(&existing)
+                        == self.fn_case_tables.get(&function_index) =>
+            {
+                existing
+            }
+            _ => AMBIGUOUS_CASE_TABLE,
+        };
+        self.case_tables.insert(callable_type_id, claimed);
     }
 
     /// If the called function has a dispatch case table, compute its result type from the
